@@ -33,6 +33,10 @@ PROJECT = {
     "X.ucg": 'let x = 1 + "s";\nout json x;\n',
     "Y.ucg": 'let y = fail "boom";\nout json y;\n',
     "T.ucg": 'let a = import "./L.ucg";\nlet b = import "./sub/../L.ucg";\nout json {t = a.x + b.x};\n',
+    # imports a file that has its own out and is also built, then fails at run time (after the import ran)
+    "Z.ucg": 'let mm = import "./M.ucg";\nlet z = fail "late";\nout json z;\n',
+    # imports the library, writes its artifact, and only then fails
+    "W.ucg": 'let l = import "./L.ucg";\nout json {w = l.x};\nlet late = [1].5;\n',
 }
 FILES = list(PROJECT)
 
@@ -147,7 +151,8 @@ def work_e3(chunk):
 
 def role(n):
     return {"A.ucg": "plain", "L.ucg": "library", "B.ucg": "importer", "M.ucg": "built-and-imported", "N.ucg": "imports-built-file",
-            "X.ucg": "type-error", "Y.ucg": "runtime-failure", "T.ucg": "two-spellings"}[n]
+            "X.ucg": "type-error", "Y.ucg": "runtime-failure", "T.ucg": "two-spellings", "Z.ucg": "fails-after-importing-built-file",
+            "W.ucg": "fails-after-out"}[n]
 
 
 # -- E2 --------------------------------------------------------------------------------------
@@ -218,8 +223,8 @@ def run(ctx):
     depth = 6 if thorough else 4
     seqlen = 4 if thorough else 3
     ctx.bounds = {"project_files": len(FILES), "e2_depth": depth, "e3_sequence_length": seqlen}
-    ctx.rule = ("project of 8 files (plain, library, importer, built-and-imported, importer of a built file, static type error, runtime "
-                "failure, one library under two spellings). E2: BFS over the real Environment to depth %d with events build(f), canonical "
+    ctx.rule = ("project of 10 files (plain, library, importer, built-and-imported, importer of a built file, static type error, runtime "
+                "failure, one library under two spellings, failure after importing a built file, failure after out). E2: BFS over the real Environment to depth %d with events build(f), canonical "
                 "state key (val_cache, shape_cache, out_lock, collector), invariant result = result alone on every transition. E3: every "
                 "ordered sequence of 1..%d distinct files in one `ucg build` invocation run twice in the same directory, plus build -r." % (depth, seqlen))
     viol = []
